@@ -310,7 +310,10 @@ impl Envelope {
                 }
                 let signature_metadata_envelope = signature_object_subject.unwrap_envelope().ok()?;
                 let signature = signature_metadata_envelope.extract_subject::<Signature>().ok()?;
-                if !self.subject().is_signature_from_key(&signature, key) {
+                // (`is_signature_from_key` already verifies against this envelope's
+                // subject; going through `self.subject()` first would verify against the
+                // subject's subject when the subject is itself a node)
+                if !self.is_signature_from_key(&signature, key) {
                     return None;
                 }
                 Some(signature_metadata_envelope)
